@@ -256,7 +256,19 @@ class VConnection(Connection):
         if self.is_closed or self.is_defunct:
             return
         self._iobuf.write(data)
-        self.process_io_buffer()
+        # waiting made visible: a read loop that stops consuming its buffer would spin for ever
+        import signal
+        try:
+            old = signal.signal(signal.SIGVTALRM, _on_feed_alarm)
+        except ValueError:              # not the main thread (engine S worker): no guard available
+            self.process_io_buffer()
+            return
+        prev = signal.setitimer(signal.ITIMER_VIRTUAL, _feed_budget())
+        try:
+            self.process_io_buffer()
+        finally:
+            signal.setitimer(signal.ITIMER_VIRTUAL, *prev) if prev[0] else signal.setitimer(signal.ITIMER_VIRTUAL, 0)
+            signal.signal(signal.SIGVTALRM, old)
 
     @classmethod
     def create_timer(cls, timeout, callback):
@@ -268,6 +280,27 @@ class VConnection(Connection):
 
     def __repr__(self):
         return '<VConnection #%d %s>' % (self.vid, self.endpoint)
+
+
+FEED_CPU_BUDGET = 5.0
+_FEED_STATE = {'livelocks': 0}
+
+
+class Livelock(BaseException):
+    """process_io_buffer() did not return within its CPU budget (BaseException: the driver's broad
+    `except Exception` handlers must not swallow it)."""
+
+
+def _on_feed_alarm(sig, frame):
+    _FEED_STATE['livelocks'] += 1
+    raise Livelock('process_io_buffer still running after %.1f s of CPU time' % _feed_budget(before=True))
+
+
+def _feed_budget(before=False):
+    # once a read loop has been caught spinning in this process, later reads get a short budget: the run
+    # is failing anyway and every further spinning read would cost the full budget again
+    n = _FEED_STATE['livelocks'] - (1 if before else 0)
+    return FEED_CPU_BUDGET if n <= 0 else 0.5
 
 
 # ---------------------------------------------------------------------------- server
